@@ -173,6 +173,25 @@ def run(ctx) -> None:
             ctx.count("speed.exactly_on_threshold")
         speed_case(ctx, lon, lat, t, st, ft, rng.choice(CARRIERS), f"rand-{kind}")
 
+    # -- very long series / tracks (chunk boundaries of any blocked variant)
+    if ctx.shard == 0:
+        n = 70001
+        t = gen.regular(n, 60)
+        x = [5.0 + 0.25 * ((k * 3) % 4) for k in range(n)]
+        for b in (4096, 16384, 32768, 65536):
+            x[b] += 40.0
+            x[b + 2] = None
+        roc_case(ctx, x, t, 0.1, "dt64ns", "huge")
+        n = ctx.pick(17001, 40001)
+        t = gen.regular(n, 3600)
+        for base_lon in (-71.05, 150.25):
+            lon = [base_lon + 0.001 * (k % 7) for k in range(n)]
+            lat = [41.0 + 0.0005 * (k % 5) for k in range(n)]
+            for b in (4096, 8192, 16384, 32768):
+                if b + 1 < n:
+                    lon[b] += 0.9  # a real jump exactly at / next to a power of two
+                    lat[b + 1] = None
+            speed_case(ctx, lon, lat, t, 1.0, 20.0, "dt64ns", "huge")
     # -- mismatched lengths are rejected with ValueError
     if ctx.shard == 0:
         for n, m in [(3, 2), (2, 3), (5, 2), (2, 5), (4, 3), (3, 4), (1, 2), (2, 1), (6, 1), (3, 0), (0, 3)]:
